@@ -11,9 +11,13 @@
 #include "vf.h"
 #include <stdlib.h>
 #include "cstl/hash.h"
+#ifndef VF_CHAIN
+#define VF_CHAIN 0
+#endif
 
 /* ------------------------------------------------------------------ ghost state */
 size_t vf_w_k, vf_w_m, vf_w_n, vf_w_count, vf_w_capacity, vf_w_rh_count, vf_w_rh_clean, vf_w_size;
+size_t vf_w_len;                       /* bounded groups: chain length */
 size_t vf_w_g;                         /* ghost bucket index: stands for "every bucket" */
 _Bool vf_w_pending, vf_w_cst;
 int vf_w_fsel;
@@ -145,12 +149,11 @@ REQUIRES(H_OBJ(h))
 REQUIRES(H_IS_BUCKET(h, bk))
 REQUIRES(vf_w_g < h->bucket.capacity && vf_dirty_cleaned <= ((size_t)1 << 40))
 ASSIGNS(vf_dirty_cleaned, __CPROVER_object_whole(h->bucket.at))
-#ifdef VF_G_clean_bucket
-ASSIGNS(vf_hash_calls1, vf_hash_calls2, vf_hash_k, vf_hash_m, vf_hash_ret, vf_aborted)
-#endif
+
 ENSURES(H_BYTE(bk->cst) == H_BYTE(h->bucket.cst))
 ENSURES(vf_dirty_cleaned == OLD(vf_dirty_cleaned) + (OLD(H_BYTE(bk->cst)) != H_BYTE(h->bucket.cst) ? 1 : 0))
-ENSURES(H_BUCKET_IDX(bk) == vf_w_g || H_BYTE(h->bucket.at[vf_w_g].cst) == OLD(H_BYTE(h->bucket.at[vf_w_g].cst)))
+ENSURES(H_BUCKET_IDX(bk) == vf_w_g || OLD(H_BYTE(h->bucket.at[vf_w_g].cst)) > 1 ||
+        H_BYTE(h->bucket.at[vf_w_g].cst) == OLD(H_BYTE(h->bucket.at[vf_w_g].cst)))
 ;
 
 /* C19: the sweep.  Cleans at most n dirty buckets, advances by at least min(n, rest),
@@ -446,8 +449,49 @@ void h_clean_bucket(void)
     struct cstl_hash * h;
     H_WIT_IN();
     struct cstl_hash_bucket * bk;
-    VF_IN_SIZE(g);
+    VF_IN_SIZE(g); VF_IN_SIZE(len);
     cstl_clean_bucket(h, bk);
+    VF_END();
+}
+
+/* Bounded check of cstl_clean_bucket against its flat contract: the same clauses asserted
+ * around the real body, on a bucket holding a chain of exactly VF_CHAIN nodes (the chain loop
+ * is unwound; DFCC 6.11 cannot track the loop's block-local variables, so no --enforce here). */
+struct cstl_hash_node vf_chain_nodes[3];
+void h_clean_bucket_b(void)
+{
+    struct cstl_hash hh, * h = &hh;
+    struct cstl_hash_bucket * bk;
+    size_t j = nondet_size_t();
+    unsigned char old_g, old_bk;
+    struct cstl_hash before;
+    int i;
+    VF_IN_SIZE(g); VF_IN_SIZE(capacity);
+    __CPROVER_assume(vf_w_capacity >= 1 && vf_w_capacity <= H_CAPMAX && h->bucket.capacity == vf_w_capacity);
+    h->bucket.at = malloc(vf_w_capacity * H_NB);
+    __CPROVER_assume(h->bucket.at != NULL);
+    __CPROVER_assume(H_FLAT(h) && H_PEND(h) && h->bucket.hash == vf_hash_stub1 && h->bucket.rh.hash == vf_hash_stub2);
+    __CPROVER_assume(j < vf_w_capacity && vf_w_g < vf_w_capacity && H_BYTE(h->bucket.cst) <= 1);
+    bk = &h->bucket.at[j];
+    __CPROVER_assume(H_BYTE(bk->cst) <= 1);
+    bk->n = VF_CHAIN > 0 ? &vf_chain_nodes[0] : NULL;
+    for (i = 0; i < VF_CHAIN; i++) {
+        vf_chain_nodes[i].next = i + 1 < VF_CHAIN ? &vf_chain_nodes[i + 1] : NULL;
+    }
+    old_g = H_BYTE(h->bucket.at[vf_w_g].cst);
+    old_bk = H_BYTE(bk->cst);
+    before = *h;
+    vf_dirty_cleaned = 0; vf_hash_calls1 = 0; vf_hash_calls2 = 0;
+    cstl_clean_bucket(h, bk);
+    VF_ASSERT(H_BYTE(bk->cst) == H_BYTE(h->bucket.cst), "clean_bucket: the bucket is clean afterwards");
+    VF_ASSERT(j == vf_w_g || old_g > 1 || H_BYTE(h->bucket.at[vf_w_g].cst) == old_g, "clean_bucket: no other stamp changes");
+    VF_ASSERT(vf_hash_calls1 == 0 && vf_hash_calls2 == (old_bk != H_BYTE(h->bucket.cst) ? VF_CHAIN : 0),
+              "clean_bucket: one consultation of the pending function per relocated node, none for a clean bucket");
+    VF_ASSERT(before.bucket.at == h->bucket.at && before.bucket.count == h->bucket.count && before.bucket.capacity == h->bucket.capacity &&
+              before.bucket.hash == h->bucket.hash && before.bucket.rh.hash == h->bucket.rh.hash && before.bucket.rh.count == h->bucket.rh.count &&
+              before.bucket.rh.clean == h->bucket.rh.clean && before.count == h->count && before.off == h->off &&
+              H_BYTE(before.bucket.cst) == H_BYTE(h->bucket.cst), "clean_bucket: the table header is not written");
+    VF_REACH(old_bk != H_BYTE(h->bucket.cst), "dirty bucket cleaned");
     VF_END();
 }
 
